@@ -51,7 +51,7 @@ func decodeScope(c *core.Ctx, l *core.Ledger) map[*ssa.Function]core.CGEdge {
 }
 
 func checkC03(c *core.Ctx, l *core.Ledger) {
-	l.Explanation = "Static clauses of C03 on the decode scope D (functions of protocol/binary, wire, internal/frame reachable from the decoding entry points over the callback-gated call graph; computed each run): (NEGLEN) every signed 32-bit length read from the wire is sign-checked on every path before it is used as a size, count, skip distance or loop bound (interprocedural field-based taint with dominance-by-edge sanitizers); (EXH-ERR) every switch over wire.Type in D handles all 11 codes and its default returns an error; (BOOL-CANON) ReadBool succeeds only on bytes 0 and 1 with the right value; (LOOP) every loop in D is counted against a loop-invariant bound or consumes input on every iteration; (REC) every recursive cycle in D passes a consuming read or is structural on an in-memory value; (PANIC) every potentially panicking SSA instruction in D (explicit panic, unchecked type assertion, non-constant index/slice, make with non-constant size, integer division) falls in a verified discharge class; (SKIP=READ) Skip consumes per wire type the same width sequence as ReadValue; (FULL-READ) the wrapped io.Reader is used only through full-read primitives (io.ReadFull/io.CopyN), so a read or skip of n bytes consumes exactly n under any segmentation. NOT decided: totality over all byte strings as such (nil dereference, stdlib, bytes.Buffer growth are assumed safe), stack depth on deeply nested input (depth is bounded by input length, not by a constant), re-encoding equality of consumed prefix."
+	l.Explanation = "Static clauses of C03 on the decode scope D (functions of protocol/binary, wire, internal/frame reachable from the decoding entry points over the callback-gated call graph; computed each run): (NEGLEN) every signed 32-bit length read from the wire is sign-checked on every path before it is used as a size, count, skip distance or loop bound (interprocedural field-based taint with dominance-by-edge sanitizers); (EXH-ERR) every switch over wire.Type in D handles all 11 codes and its default returns an error; (BOOL-CANON) ReadBool succeeds only on bytes 0 and 1 with the right value; (LOOP) every loop in D is counted against a loop-invariant bound or consumes input on every iteration; (REC) every recursive cycle in D passes a consuming read or is structural on an in-memory value; (PANIC) every potentially panicking SSA instruction in D (explicit panic, unchecked type assertion, non-constant index/slice, make with non-constant size, integer division) falls in a verified discharge class; (SKIP=READ) Skip consumes per wire type the same width sequence as ReadValue; (POOL-*) pooled readers/writers/lazy lists are completely re-initialised when borrowed or reset before they are returned, nothing touches them after Put, no double Put — so a decode cannot observe (or crash on) state left by an earlier one; (FULL-READ) the wrapped io.Reader is used only through full-read primitives (io.ReadFull/io.CopyN), so a read or skip of n bytes consumes exactly n under any segmentation. NOT decided: totality over all byte strings as such (nil dereference, stdlib, bytes.Buffer growth are assumed safe), stack depth on deeply nested input (depth is bounded by input length, not by a constant), re-encoding equality of consumed prefix."
 	l.RuleText = "one obligation per (rule, construct) in D; non-trivial = a guard, path or table had to be examined"
 	l.Assumptions = []string{"io.Reader/io.ReaderAt implementations honour 0 <= n <= len(p)", "stack depth is bounded by input length (each recursion level consumes >= 1 byte), not by a constant", "nil dereference and stdlib internals are outside the ledger"}
 	d := decodeScope(c, l)
@@ -109,6 +109,8 @@ func checkC03(c *core.Ctx, l *core.Ledger) {
 	checkRecursion(c, l, d, consuming)
 	checkPanicLedger(c, l, dl, inD)
 	checkSkipRead(c, l, m)
+	// a decode must not depend on what the pooled reader did before: pool discipline (same rules as C18)
+	checkPools(c, l)
 	// SKIP=READ and the width sequences presuppose that every primitive consumes exactly the bytes it asks for
 	checkStreamReaderFullRead(c, l)
 	checkNoRawRead(c, l, "FULL-READ", []string{"protocol/binary"})
@@ -439,8 +441,8 @@ func countedLoop(body map[*ssa.BasicBlock]bool) (string, bool) {
 			continue
 		}
 		cmp, ok := ifi.Cond.(*ssa.BinOp)
-		if ok && cmp.Op == token.GEQ && body[b.Succs[0]] {
-			// descending: i >= const with i decremented every iteration
+		if ok && (cmp.Op == token.GEQ || cmp.Op == token.GTR) && body[b.Succs[0]] {
+			// descending: i >= const (or i > const) with i decremented every iteration
 			if _, isC := core.ConstInt(cmp.Y); isC && isDecreasing(cmp.X, body) {
 				return "induction variable decreasing towards a constant lower bound", true
 			}
